@@ -60,36 +60,55 @@ func genC01(seed uint64, tier string) *plan.Plan {
 	}
 	pl.Cfg["limit"] = int64(limit)
 	pl.Cfg["max_steps"] = 4_000_000 // 400 records x 40 fields are legitimate
-	nT := 1 + r.IntN(3)
-	sizes := make([]int, nT)
-	for i := 0; i < nT; i++ {
-		n := 1 + r.IntN(8)
-		if r.IntN(5) == 0 {
-			n = 1 + r.IntN(40)
-		}
-		sizes[i] = n
-		pl.Ops = append(pl.Ops, plan.Op{K: "tmpl", A: int64(i), N: pickElems(r, n, false)})
+	// 1-3 consecutive exporter sessions against one long-lived collector (each exporter numbers its
+	// templates from 256 again; half of the time the sessions share the observation domain)
+	nSess := 1
+	if tr != 3 && r.IntN(3) == 0 {
+		nSess = 2 + r.IntN(2)
 	}
-	nOps := 2 + r.IntN(9)
-	for i := 0; i < nOps; i++ {
-		slot := r.IntN(nT)
-		maxVar := []int64{0, 10, 254, 255, 256, 300, 2000, 65535}[r.IntN(8)]
-		if int(maxVar) > limit/2 {
-			maxVar = int64(limit / 2)
+	pl.Cfg["sessions"] = int64(nSess)
+	pl.Cfg["same_domain"] = int64(r.IntN(2))
+	longUDP := tr == 1 && pl.Cfg["lossy"] == 0 && r.IntN(3) == 0
+	if longUDP {
+		// a UDP session that outlives template lifetimes: refresh 2 s, collector lifetime 5 s
+		pl.Cfg["refresh"] = 2
+		pl.Cfg["ttl"] = 5
+	}
+	for sess := 0; sess < nSess; sess++ {
+		nT := 1 + r.IntN(3)
+		sizes := make([]int, nT)
+		for i := 0; i < nT; i++ {
+			n := 1 + r.IntN(8)
+			if r.IntN(5) == 0 {
+				n = 1 + r.IntN(40)
+			}
+			sizes[i] = n
+			pl.Ops = append(pl.Ops, plan.Op{K: "tmpl", T: sess, A: int64(i), N: pickElems(r, n, false)})
 		}
-		nrec := 1 + r.IntN(8)
-		if r.IntN(6) == 0 {
-			nrec = 1 + r.IntN(400) // towards "as many as fit"
-			maxVar = int64(r.IntN(4))
-		}
-		op := plan.Op{K: "data", A: int64(slot), B: int64(nrec), C: int64(r.Uint64() >> 1), D: maxVar, S: []string{"", "extra", "v2"}[r.IntN(3)]}
-		if r.IntN(12) == 0 && tr != 3 && tr != 1 {
-			op.F = []plan.Op{{K: "size", A: int64(65535 - r.IntN(3))}} // a message of exactly (or nearly) the maximum size
-			op.B = 1
-		}
-		pl.Ops = append(pl.Ops, op)
-		if r.IntN(5) == 0 {
-			pl.Ops = append(pl.Ops, plan.Op{K: "adv", A: int64(r.IntN(3000)) * int64(time.Millisecond)})
+		nOps := 2 + r.IntN(9)
+		for i := 0; i < nOps; i++ {
+			slot := r.IntN(nT)
+			maxVar := []int64{0, 10, 254, 255, 256, 300, 2000, 65535}[r.IntN(8)]
+			if int(maxVar) > limit/2 {
+				maxVar = int64(limit / 2)
+			}
+			nrec := 1 + r.IntN(8)
+			if r.IntN(6) == 0 {
+				nrec = 1 + r.IntN(400) // towards "as many as fit"
+				maxVar = int64(r.IntN(4))
+			}
+			op := plan.Op{K: "data", T: sess, A: int64(slot), B: int64(nrec), C: int64(r.Uint64() >> 1), D: maxVar, S: []string{"", "extra", "v2"}[r.IntN(3)]}
+			if r.IntN(12) == 0 && tr != 3 && tr != 1 {
+				op.F = []plan.Op{{K: "size", A: int64(65535 - r.IntN(3))}} // a message of exactly (or nearly) the maximum size
+				op.B = 1
+			}
+			pl.Ops = append(pl.Ops, op)
+			if r.IntN(5) == 0 {
+				pl.Ops = append(pl.Ops, plan.Op{K: "adv", T: sess, A: int64(r.IntN(3000)) * int64(time.Millisecond)})
+			}
+			if longUDP && r.IntN(3) == 0 {
+				pl.Ops = append(pl.Ops, plan.Op{K: "adv", T: sess, A: int64(1+r.IntN(9)) * int64(time.Second)})
+			}
 		}
 	}
 	genSchedule(r, pl, 2, 5000)
@@ -105,7 +124,7 @@ func runC01(pl *plan.Plan, out *plan.Outcome) {
 		addr = "[fd00::1]:4739"
 	}
 	z := getZoo()
-	cin := collector.CollectorInput{Address: addr, Protocol: "tcp", MaxBufferSize: 65535, IsIPv6: v6, TemplateTTL: 7200}
+	cin := collector.CollectorInput{Address: addr, Protocol: "tcp", MaxBufferSize: 65535, IsIPv6: v6, TemplateTTL: uint32(cfgOr(pl, "ttl", 7200))}
 	var tlsCfg *exporter.ExporterTLSClientConfig
 	if tr == 1 || tr == 3 {
 		cin.Protocol = "udp"
@@ -151,23 +170,34 @@ func runC01(pl *plan.Plan, out *plan.Outcome) {
 			got = append(got, captureMsg(msg))
 		}
 	})
-	var sess *expSession
+	var sessions []*expSession
+	nSess := int(cfgOr(pl, "sessions", 1))
+	baseDomain := cfgOr(pl, "domain", 1)
 	env.Go("app", func() {
 		env.Sleep(time.Millisecond)
-		var s *expSession
-		var err error
-		Block("init", func() { s, err = newExpSessionOpts(env, expOpts{noListener: true, tls: tlsCfg, addr: addr}) })
-		if err != nil {
-			out.Trouble = "exporter init failed: " + err.Error()
-			Block("stop", func() { cp.Stop() })
-			cp.CloseMsgChan()
-			return
+		for si := 0; si < nSess; si++ {
+			if cfgOr(pl, "same_domain", 0) == 0 {
+				pl.Cfg["domain"] = baseDomain + int64(si)
+			}
+			var s *expSession
+			var err error
+			Block("init", func() { s, err = newExpSessionOpts(env, expOpts{noListener: true, tls: tlsCfg, addr: addr}) })
+			if err != nil {
+				out.Trouble = "exporter init failed: " + err.Error()
+				break
+			}
+			sessions = append(sessions, s)
+			var ops []plan.Op
+			for _, op := range pl.Ops {
+				if op.T == si {
+					ops = append(ops, op)
+				}
+			}
+			s.runOps(ops)
+			env.Sleep(180 * time.Second) // let delayed pieces / datagrams arrive
+			s.closeExporter()
+			env.Sleep(time.Second)
 		}
-		sess = s
-		s.runOps(pl.Ops)
-		env.Sleep(180 * time.Second) // let delayed pieces / datagrams arrive
-		s.closeExporter()
-		env.Sleep(time.Second)
 		Block("stop", func() { cp.Stop() })
 		cp.CloseMsgChan()
 	})
@@ -235,27 +265,30 @@ func runC01(pl *plan.Plan, out *plan.Outcome) {
 		out.Trouble = "run ended: " + res
 		return
 	}
-	if sess == nil {
+	if len(sessions) == 0 {
 		return
 	}
-	// what was sent successfully, in order
+	// what was sent successfully, in order, over all sessions
 	type sent struct {
-		c  callRec
-		ti *tmplInfo
+		c      callRec
+		ti     *tmplInfo
+		domain uint32
 	}
 	var sents []sent
-	for _, c := range sess.calls {
-		if c.Err != nil {
-			if c.Valid {
-				env.Violate("valid-send-rejected", c.Kind, "call (%s, slot %d, message of %d bytes, transport %s) was rejected: %v", c.Kind, c.Slot, c.MsgLen, transportNames[tr], c.Err)
+	for _, sess := range sessions {
+		for _, c := range sess.calls {
+			if c.Err != nil {
+				if c.Valid {
+					env.Violate("valid-send-rejected", c.Kind, "call (%s, slot %d, message of %d bytes, transport %s) was rejected: %v", c.Kind, c.Slot, c.MsgLen, transportNames[tr], c.Err)
+				}
+				continue
 			}
-			continue
+			sents = append(sents, sent{c, sess.tmpls[c.Slot], sess.domain})
 		}
-		sents = append(sents, sent{c, sess.tmpls[c.Slot]})
 	}
 	match := func(s sent, d dMsg) string {
-		if d.Domain != sess.domain {
-			return fmt.Sprintf("observation domain %d delivered, %d configured", d.Domain, sess.domain)
+		if d.Domain != s.domain {
+			return fmt.Sprintf("observation domain %d delivered, %d configured", d.Domain, s.domain)
 		}
 		if s.c.Kind == "tmpl" {
 			if !d.IsTemplate || len(d.Records) != 1 {
@@ -299,16 +332,38 @@ func runC01(pl *plan.Plan, out *plan.Outcome) {
 		return ""
 	}
 	if !lossy {
-		if len(got) != len(sents) {
-			env.Violate("count", transportNames[tr], "%d messages sent successfully over %s, %d delivered", len(sents), transportNames[tr], len(got))
-		}
-		for i := 0; i < len(got) && i < len(sents); i++ {
-			if m := match(sents[i], got[i]); m != "" {
-				loc := sents[i].c.Kind
-				env.Violate("mismatch", loc, "message %d over %s: %s", i, transportNames[tr], m)
-				break
+		// deliveries = the successful sends, in order; over UDP the exporter's periodic template
+		// refresh additionally delivers templates that were already sent (skipped)
+		i, refreshes := 0, 0
+		for gi, d := range got {
+			if i < len(sents) && match(sents[i], d) == "" {
+				i++
+				continue
 			}
+			skipped := false
+			if d.IsTemplate && (tr == 1 || tr == 3) {
+				for j := 0; j < i; j++ {
+					if sents[j].c.Kind == "tmpl" && match(sents[j], d) == "" {
+						skipped = true
+						refreshes++
+						break
+					}
+				}
+			}
+			if skipped {
+				continue
+			}
+			if i < len(sents) {
+				env.Violate("mismatch", sents[i].c.Kind, "delivery %d over %s, expected successful send %d of %d: %s", gi, transportNames[tr], i, len(sents), match(sents[i], d))
+			} else {
+				env.Violate("count", transportNames[tr], "%d messages sent successfully over %s, delivery %d is one more", len(sents), transportNames[tr], gi)
+			}
+			break
 		}
+		if len(out.Violations) == 0 && i != len(sents) {
+			env.Violate("count", transportNames[tr], "%d messages sent successfully over %s, only %d of them were delivered (%d deliveries, %d of them refreshed templates)", len(sents), transportNames[tr], i, len(got), refreshes)
+		}
+		out.Add("c01.refreshed_templates_delivered", int64(refreshes))
 	} else {
 		// every delivered message equals some sent message; duplicates at most as injected
 		used := make([]int, len(sents))
@@ -365,5 +420,6 @@ func runC01(pl *plan.Plan, out *plan.Outcome) {
 	out.Add("c01.delivered", int64(len(got)))
 	out.Add("c01.transport."+transportNames[tr], 1)
 	out.Nontrivial = dataDelivered > 0
-	out.Sample = map[string]any{"transport": transportNames[tr], "v6": v6, "sent": len(sents), "delivered": len(got), "lossy": lossy, "chunk": chunk}
+	out.Add("c01.sessions", int64(len(sessions)))
+	out.Sample = map[string]any{"transport": transportNames[tr], "v6": v6, "sessions": len(sessions), "sent": len(sents), "delivered": len(got), "lossy": lossy, "chunk": chunk}
 }
